@@ -154,6 +154,65 @@ pub fn enumerate_faults(ctx: &mut Ctx, base: &[u8], rng: &mut crate::prng::Rng, 
     }
 }
 
+fn crc32c(data: &[u8]) -> u32 {
+    // Castagnoli, reflected 0x82F63B78 (a "wrong polynomial" near miss)
+    let mut c = 0xffff_ffffu32;
+    for b in data {
+        c ^= *b as u32;
+        for _ in 0..8 {
+            c = if c & 1 == 1 { (c >> 1) ^ 0x82f6_3b78 } else { c >> 1 };
+        }
+    }
+    !c
+}
+
+/// Near-miss FINGERPRINT relations: the value an almost-right implementation would compute (length
+/// field not covering the attribute, covering too much, no XOR, another polynomial, other byte
+/// order, other coverage).  A message carrying any of them instead of the RFC value must be refused.
+pub fn near_miss_relations(ctx: &mut Ctx, base: &[u8]) {
+    use crate::refimpl::crypto::crc32;
+    let rp = ref_parse(base);
+    let Some(fp) = rp.attrs.iter().find(|a| a.ty == FP) else { return };
+    let off = fp.off;
+    let with_len = |l: usize, upto: usize| {
+        let mut v = base[..upto].to_vec();
+        v[2] = (l >> 8) as u8;
+        v[3] = l as u8;
+        v
+    };
+    let right = with_len(off + 8 - 20, off);
+    let x = 0x5354_554eu32;
+    let mut alts: Vec<(&'static str, u32)> = vec![
+        ("length-not-covering-fingerprint", crc32(&with_len(off - 20, off)) ^ x),
+        ("length-as-total-size", crc32(&with_len(off + 8, off)) ^ x),
+        ("length-zero", crc32(&with_len(0, off)) ^ x),
+        ("no-xor", crc32(&right)),
+        ("xor-byte-swapped", crc32(&right) ^ x.swap_bytes()),
+        ("crc-byte-swapped", (crc32(&right) ^ x).swap_bytes()),
+        ("crc32c", crc32c(&right) ^ x),
+        ("body-only", crc32(&right[20.min(right.len())..]) ^ x),
+        ("including-own-header", crc32(&with_len(off + 8 - 20, off + 4)) ^ x),
+        ("complemented", !(crc32(&right) ^ x)),
+    ];
+    if off >= 24 {
+        // the CRC of the message without its last attribute before the fingerprint
+        if let Some(prev) = rp.attrs.iter().filter(|a| a.off < off).last() {
+            alts.push(("without-previous-attribute", crc32(&with_len(prev.off + 8 - 20, prev.off)) ^ x));
+        }
+    }
+    let genuine = u32::from_be_bytes(base[off + 4..off + 8].try_into().unwrap());
+    for (name, v) in alts {
+        if v == genuine {
+            continue;
+        }
+        let mut m = base.to_vec();
+        m[off + 4..off + 8].copy_from_slice(&v.to_be_bytes());
+        check_mutant(ctx, &m);
+        ctx.count("near-miss-fingerprint-relations");
+        ctx.set_insert("near-miss-relations", name.to_string());
+    }
+}
+
 pub fn run(ctx: &mut Ctx) {
     let quick = ctx.tier == Tier::Quick;
     // ---- builder-appended FINGERPRINT equals the reference value ----
@@ -245,7 +304,19 @@ pub fn run(ctx: &mut Ctx) {
         if done <= 2 {
             ctx.sample("base-message", || json!({"bytes": hex(&base), "mutants": "every single-bit flip, every burst <= 8 bits, sampled bursts <= 32, byte substitutions"}));
         }
+        near_miss_relations(ctx, &base);
         enumerate_faults(ctx, &base, &mut rng, !quick);
+    }
+    // near-miss relations on many more messages than the (expensive) fault enumeration can take
+    {
+        let nn = ctx.n(48_000, 480_000);
+        let mut r3 = ctx.rng("near-miss", 0);
+        for _ in 0..nn {
+            let (b, _g) = gen_valid_message(&mut r3, 4);
+            if b.len() <= 2_000 && ref_parse(&b).attrs.iter().any(|a| a.ty == FP) {
+                near_miss_relations(ctx, &b);
+            }
+        }
     }
     // a few near 64 KiB: single-bit flips sampled (each mutant costs a CRC over 64 KiB)
     let nbig = ctx.n(48, 480);
@@ -330,6 +401,7 @@ pub fn run(ctx: &mut Ctx) {
         }
     }
     ctx.require("exact-64k-boundary-fingerprints", 40);
+    ctx.require("near-miss-fingerprint-relations", 10_000);
     ctx.require("builder-fingerprints", 5_000);
     ctx.require("base-messages", 200);
     ctx.require("single-bit-flips", 50_000);
